@@ -405,12 +405,27 @@ def run_der_case(tag, lenform, kids):
 # ---------------------------------------------------------------------------
 # (3) raw byte streams at connection start (both roles)
 # ---------------------------------------------------------------------------
+# inputs after which either role must have given up (client: more than 1024
+# lines before the version; server: the first line is not an SSH version)
+MUST_CLOSE = {'empty-line-flood', 'empty-line-flood-256k',
+              'empty-line-flood-1m',
+              'crlf-line-flood-128k', 'space-line-flood', 'banner-flood',
+              'banner-flood-100k'}
+
+
 def raw_stream_cases():
     L = 4
     big = 0xffffffff
     v = b'SSH-2.0-evil\r\n'
     cases = {
         'empty-line-flood': b'\n' * 5000,
+        # large floods: the cost per line must not grow with what is still
+        # buffered, and the documented limits must end the connection
+        'empty-line-flood-256k': b'\n' * 262144,
+        'empty-line-flood-1m': b'\n' * (1 << 20),
+        'crlf-line-flood-128k': b'\r\n' * 131072,
+        'space-line-flood': b' \n' * 100000,
+        'banner-flood-100k': b'b\r\n' * 100000,
         'no-newline-64k': b'A' * 65536,
         'banner-flood': b'x\r\n' * 2000 + v,
         'long-version': b'SSH-2.0-' + b'v' * 9000 + b'\r\n',
@@ -507,6 +522,10 @@ def run_raw_stream(role, name, data, chunk):
     for exc in lost:
         if exc is not None and not isinstance(exc, Exception):
             bad.append(f'owner got a non-exception {exc!r}')
+    if name in MUST_CLOSE and not lost:
+        bad.append('the endpoint is still waiting for more after a flood of '
+                   'lines that exceeds its own limits: no error was reported '
+                   '(only a login timeout would end this connection)')
     # let timers run (login timeout) so that nothing is left hanging
     try:
         with meter(5.0):
